@@ -59,8 +59,12 @@ bool Subprocess::Start(SubprocessSet* set, const string& command) {
     fd_ = -1;
   } else {
     int output_pipe[2];
-    if (pipe(output_pipe) < 0)
-      Fatal("pipe: %s", strerror(errno));
+    if (pipe(output_pipe) < 0) {
+      // Out of file descriptors (EMFILE with a large -j or many job slots):
+      // the command cannot be started; see the posix_spawn() case below.
+      Error("pipe: %s", strerror(errno));
+      return false;
+    }
     fd_ = output_pipe[0];
     subproc_stdout_fd = output_pipe[1];
 #if !defined(USE_PPOLL)
